@@ -3,6 +3,7 @@
 mod c02;
 mod c05;
 mod c08;
+mod c17;
 mod c19;
 mod c20;
 mod engine;
@@ -55,6 +56,7 @@ fn main() {
         "C10" => c19::gen_c10(seed, thorough),
         "C15" => engine::gen_c15(seed, thorough),
         "C16" => engine::gen_c16(seed, thorough),
+        "C17" => c17::gen(seed, thorough),
         "C19" => c19::gen_c19(seed, thorough),
         "C20" => c20::gen(seed, thorough),
         _ => {
